@@ -21,6 +21,8 @@ import WntrModel.Lemmas.AmlRpn
 import WntrModel.Lemmas.AmlFold
 import WntrModel.Lemmas.AmlDeriv
 import WntrModel.Lemmas.AmlRat
+import WntrModel.Lemmas.AmlInv
+import WntrModel.Lemmas.AmlStruct
 
 namespace Wntr.Aml
 
@@ -204,5 +206,155 @@ example : (denote exRepeat2).map (fun e => eval ratOps exEnv (D 0 e)) = some 11 
 (the defect fixed by /repo commit 134ac540 stays visible in the model) -/
 theorem reverseSd_asCoded_counterexample :
     ((reverseSdAsCoded exRepeat2).bind (jacOf · 0)).map (evalS ratOps exEnv) = some 17 := by decide +kernel
+
+
+/-! ## 5. registration: reference counts, C objects, numbering -/
+
+/-- one step of a history on `aml.Model` -/
+inductive MOp (α : Type) where
+  | register (c : ConSpec) (conAddr : Nat) (varAddrs paramAddrs : List Nat)   -- `m.<name> = Constraint(expr)`
+  | remove (id : Nat)                                                          -- `del m.<name>`
+  | setVar (i : Nat) (x : α)                                                   -- `var.value = x`
+  | setParam (i : Nat) (x : α)
+  | setStructure                                                               -- `m.set_structure()`
+  | loadX (xs : List α)                                                        -- `m.load_var_values_from_x(x)`
+
+/-- the model after one step (`ConstraintDict.__setitem__` refuses a name that is already registered, before anything
+is touched) -/
+def Model.apply {α : Type} (O : Ops α) (m : Model α) : MOp α → Model α
+  | .register c ca va pa =>
+    if (m.referenced.lookup c.id).isSome then m else (m.register O Model.incFloat c ca va pa).1
+  | .remove id => (m.remove O id).1
+  | .setVar i x => m.setVar i x
+  | .setParam i x => m.setParam i x
+  | .setStructure => m.setStructure.1
+  | .loadX xs => (m.loadX xs).1
+
+def Model.run {α : Type} (O : Ops α) (m : Model α) (h : List (MOp α)) : Model α := h.foldl (Model.apply O) m
+
+section Registration
+variable {α : Type} (O : Ops α)
+
+theorem apply_inv (m : Model α) (op : MOp α) (hi : Inv m) : Inv (m.apply O op) := by
+  cases op with
+  | register c ca va pa =>
+    simp only [Model.apply]
+    split
+    · exact hi
+    · rename_i hnew
+      obtain ⟨_, hb, hc, hr⟩ := register_spec O m c ca va pa hi.bal
+      refine ⟨hb, ?_, ?_⟩
+      · intro k; rw [hc k, hr, refsOf_cons, hi.counts k]; omega
+      · rw [hr]
+        simp only [List.map_cons, List.nodup_cons]
+        refine ⟨?_, hi.ids⟩
+        intro hm
+        obtain ⟨p, hp, hpe⟩ := List.mem_map.mp hm
+        apply hnew
+        -- an id that occurs among the keys has a lookup
+        have : ∀ (l : List (Nat × RefEntry)), p ∈ l → (l.lookup p.1).isSome = true := by
+          intro l hl
+          induction l with
+          | nil => cases hl
+          | cons q r ih =>
+            obtain ⟨qk, qv⟩ := q
+            by_cases hq : p.1 = qk
+            · subst hq; rw [lookup_cons_self]; rfl
+            · rcases List.mem_cons.mp hl with rfl | hl'
+              · exact absurd rfl hq
+              · rw [lookup_cons_ne p.1 qk qv r hq]; exact ih hl'
+        rw [← hpe]; exact this _ hp
+  | remove id => exact remove_inv O m id hi
+  | setVar i x =>
+    simp only [Model.apply, Model.setVar]
+    split <;> exact ⟨hi.bal, hi.counts, hi.ids⟩
+  | setParam i x =>
+    simp only [Model.apply, Model.setParam]
+    split <;> exact ⟨hi.bal, hi.counts, hi.ids⟩
+  | setStructure =>
+    simp only [Model.apply, Model.setStructure]
+    split <;> exact ⟨hi.bal, hi.counts, hi.ids⟩
+  | loadX xs =>
+    simp only [Model.apply, Model.loadX]
+    split <;> exact ⟨hi.bal, hi.counts, hi.ids⟩
+
+/-- **registration_refcount_inv.** After EVERY history of registering / removing constraints (plain and conditional),
+setting values, `set_structure` and `load_var_values_from_x`, starting from the empty model:
+`_refcounts[x]` = number of mentions of `x` by the registered constraints' reference sets; `x` has a C object
+(`_var_cvar_map` / `_param_cparam_map` / `_float_cfloat_map`) iff that count is positive; constraint identities are distinct. -/
+theorem registration_refcount_inv (h : List (MOp α)) : Inv (Model.run O ({} : Model α) h) := by
+  suffices ∀ m : Model α, Inv m → Inv (Model.run O m h) from this _ Inv.empty
+  induction h with
+  | nil => exact fun m hi => hi
+  | cons op rest ih => exact fun m hi => ih _ (apply_inv O m op hi)
+
+/-- with the `OrderedSet`s of the code (no repeats inside one constraint's reference lists) the count is the NUMBER OF
+REGISTERED CONSTRAINTS mentioning the leaf -/
+theorem refcount_eq_number_of_constraints (h : List (MOp α))
+    (hnd : ∀ p ∈ (Model.run O ({} : Model α) h).referenced, (refKeys p.2).Nodup) (k : LeafKey) :
+    (Model.run O ({} : Model α) h).cnt k =
+      ((Model.run O ({} : Model α) h).referenced.filter fun p => decide (k ∈ refKeys p.2)).length := by
+  rw [(registration_refcount_inv O h).counts k]
+  generalize (Model.run O ({} : Model α) h).referenced = r at hnd
+  induction r with
+  | nil => rfl
+  | cons p r ih =>
+    rw [show p = (p.1, p.2) from rfl, refsOf_cons, ih (fun q hq => hnd q (by simp [hq]))]
+    have hp := hnd p (by simp)
+    by_cases hk : k ∈ refKeys p.2
+    · simp [hk, mc, List.count_eq_one_of_mem hp hk]; omega
+    · simp [hk, mc, List.count_eq_zero_of_not_mem hk]
+
+/-- C object ⇔ positive reference count, for every history -/
+theorem cobject_iff_refcount_pos (h : List (MOp α)) (k : LeafKey) :
+    (Model.run O ({} : Model α) h).live k = true ↔ 0 < (Model.run O ({} : Model α) h).cnt k :=
+  (registration_refcount_inv O h).bal k
+
+/-- **building never fails (bookkeeping layer)**: registering a constraint in a model reached by any history returns
+normally (the repaired `_increment_float`) -/
+theorem register_never_fails (h : List (MOp α)) (c : ConSpec) (ca : Nat) (va pa : List Nat) :
+    ((Model.run O ({} : Model α) h).register O Model.incFloat c ca va pa).2 = .ok :=
+  (register_spec O _ c ca va pa (registration_refcount_inv O h).bal).1
+
+/-- **set_structure_unique_indices.** `set_structure` numbers the variables 0..n−1 and the constraints 0..m−1
+(plain first, then conditional), in address order, without dropping or duplicating anything -/
+theorem set_structure_unique_indices (e e' : Evaluator α) (h : e.setStructure = some e') :
+    e'.vars.map (·.index) = List.range' 0 e.vars.length ∧
+    e'.cons.map (·.index) ++ e'.ifCons.map (·.index) = List.range' 0 (e.cons.length + e.ifCons.length) ∧
+    (e'.vars.map (·.index)).Nodup ∧ (e'.cons.map (·.index) ++ e'.ifCons.map (·.index)).Nodup ∧
+    e'.vars.map (·.addr) = e.vars.map (·.addr) ∧ e'.vars.map (·.value) = e.vars.map (·.value) := by
+  obtain ⟨h1, h2, h3, h4, _, h6, _, _⟩ := setStructure_indices e e' h
+  obtain ⟨u1, u2⟩ := setStructure_unique e e' h
+  refine ⟨h1, ?_, u1, u2, h2, h3⟩
+  rw [h4, h6]
+  have := List.range'_append (s := 0) (m := e.cons.length) (n := e.ifCons.length) (step := 1)
+  simpa [Nat.add_comm] using this
+
+/-- **values survive removal**: when the last constraint mentioning a variable / parameter is removed, the C++ value is
+copied back, so `x.value` reads the same before and after -/
+theorem values_survive_removal (m : Model α) (i : Nat) :
+    (m.decVar O i).varValue O i = m.varValue O i ∧ (m.decParam O i).paramValue O i = m.paramValue O i :=
+  ⟨decVar_value O m i, decParam_value O m i⟩
+
+end Registration
+
+/-- two constraints `x + 1.0` sharing the SAME `Float` object (identity 7) -/
+def exCon (id v : Nat) : ConSpec :=
+  ⟨id, false, [v], [], [7], [⟨.const 1, .bin .add (.var v) (.const 1), [(v, .const 1)]⟩]⟩
+
+/-- `_increment_float` AS CODED BEFORE the repair raised `KeyError` on the second constraint
+(the defect fixed by /repo commit 95b1e94d stays visible in the model) … -/
+theorem register_asCoded_counterexample :
+    (((({} : Model Rat).register ratOps Model.incFloatAsCoded (exCon 0 0) 100 [10] []).1.register ratOps
+        Model.incFloatAsCoded (exCon 1 1) 101 [11] []).2) = .keyError := by decide +kernel
+
+/-- … and the repaired one registers both; non-vacuity of `registration_refcount_inv`: the shared `Float` has count 2 -/
+example : (Model.run ratOps ({} : Model Rat)
+    [.register (exCon 0 0) 100 [10] [], .register (exCon 1 1) 101 [11] []]).cnt (.flt 7) = 2 := by decide +kernel
+example : (Model.run ratOps ({} : Model Rat)
+    [.register (exCon 0 0) 100 [10] [], .register (exCon 1 1) 101 [11] [], .remove 0]).cnt (.flt 7) = 1 := by
+  decide +kernel
+example : (Model.run ratOps ({} : Model Rat)
+    [.register (exCon 0 0) 100 [10] [], .remove 0]).live (.var 0) = false := by decide +kernel
 
 end Wntr.Aml
